@@ -123,11 +123,27 @@ def explore(spec, report, max_depth, max_states=None, sig_base=None, stop_on_fir
     maxd = 0
     seen_sigs = set()
 
+    decoy = {}
+
+    # a second, populated instance of the same class that is alive during the whole exploration: instances are
+    # independent objects, so nothing done to the instances under test may change it (class- / module-level state)
+    mk = getattr(spec, "decoy", None)
+    if mk is not None:
+        d = mk()
+        if d is not None:
+            decoy["obj"], decoy["key"] = d[0], d[1](d[0])
+            decoy["keyfn"] = d[1]
+
     def rebuild(init, hist):
         impl, model = spec.build(init)
         for op in hist:
             model = spec.step(impl, model, op)
         return impl, model
+
+    def check_decoy():
+        if decoy and decoy["keyfn"](decoy["obj"]) != decoy["key"]:
+            raise Mismatch("other-instance-disturbed", "a second instance that was not touched changed: %r -> %r" % (
+                decoy["key"], decoy["keyfn"](decoy["obj"])))
 
     def report_mismatch(m, init, hist, op):
         sig = dict(sig_base, kind=m.kind, op=(op[0] if isinstance(op, (list, tuple)) and op else op))
@@ -172,6 +188,8 @@ def explore(spec, report, max_depth, max_states=None, sig_base=None, stop_on_fir
             try:
                 model2 = spec.step(impl, model, op)
                 spec.check(impl, model2)
+                if transitions % 64 == 0:
+                    check_decoy()      # (a disturbance persists, so it is also seen by the check after the menu)
             except Mismatch as m:
                 report_mismatch(m, init, hist, op)
                 spec.cleanup(impl)
@@ -188,6 +206,12 @@ def explore(spec, report, max_depth, max_states=None, sig_base=None, stop_on_fir
                 spec.cleanup(impl)
                 continue
             k = spec.key(impl, model2)
+            if op is menu[-1]:
+                try:
+                    check_decoy()
+                except Mismatch as m:
+                    report_mismatch(m, init, hist, ("<some operation of the menu applied in this state>",))
+                    decoy.clear()
             if k not in seen:
                 seen.add(k)
                 states += 1
